@@ -529,6 +529,7 @@ type FuncSpec struct {
 	Ensures    []Clause
 	Checks     []Clause // checked at every return like ensures, may mention locals, not exported to callers
 	Effects    []Clause // ghost effects ($Name := expr) applied at call sites; Name holds the target
+	CallPres   []Clause // obligations at call sites inside this function; Name holds the callee fragment
 	Loops      map[int]*LoopSpec
 	NoPanic    bool
 	Overflow   bool
@@ -630,7 +631,7 @@ var clauseKeywords = map[string]bool{
 	"property": true, "requires": true, "ensures": true, "nopanic": true, "overflow": true,
 	"untrusted": true, "loop": true, "modifies": true, "assume": true, "trusted": true,
 	"fresh": true, "params": true, "results": true, "let": true, "assert": true, "var": true,
-	"dropped": true, "param": true, "end": true, "checks": true, "effect": true, "noframe": true, "lock": true, "permtable": true, "require": true, "closed": true,
+	"dropped": true, "param": true, "end": true, "checks": true, "effect": true, "callpre": true, "noframe": true, "lock": true, "permtable": true, "require": true, "closed": true,
 }
 
 // parseContractFile reads a zz_contracts_verif.go file.
@@ -745,6 +746,18 @@ func (c *Contracts) parseContractFile(path, pkgPath string) error {
 					cur.Assumes = append(cur.Assumes, cl)
 				}
 			}
+		case "callpre":
+			// callpre <callee name fragment>: <expr>   (obligation at every call whose callee name contains the fragment)
+			k := strings.Index(rest, ":")
+			if k < 0 || cur == nil {
+				return fail(l.n, "bad callpre clause")
+			}
+			cl, err := parseClause(l.n, rest[k+1:])
+			if err != nil {
+				return err
+			}
+			cl.Name = strings.TrimSpace(rest[:k])
+			cur.CallPres = append(cur.CallPres, cl)
 		case "effect":
 			// effect $Ghost := <expr>   (ghost protocol: applied at call sites after the postconditions)
 			k := strings.Index(rest, ":=")
